@@ -10,28 +10,28 @@ namespace PW
   x : K
   y : K
   z : K
-deriving Repr, Inhabited
+deriving Repr, Inhabited, DecidableEq
 
 @[ext] structure V4 (K : Type) where
   x : K
   y : K
   z : K
   w : K
-deriving Repr, Inhabited
+deriving Repr, Inhabited, DecidableEq
 
 /-- rows `r0 r1 r2` -/
 @[ext] structure M3 (K : Type) where
   r0 : V3 K
   r1 : V3 K
   r2 : V3 K
-deriving Repr, Inhabited
+deriving Repr, Inhabited, DecidableEq
 
 @[ext] structure M4 (K : Type) where
   r0 : V4 K
   r1 : V4 K
   r2 : V4 K
   r3 : V4 K
-deriving Repr, Inhabited
+deriving Repr, Inhabited, DecidableEq
 
 variable {K : Type} [Add K] [Sub K] [Mul K] [Div K] [Neg K] [OfNat K 0] [OfNat K 1]
 
